@@ -28,6 +28,20 @@ def run(tier, rep):
     rn = run_tlc("MCMono", "Mono_nodedup.cfg", workers=4, xmx="4g", timeout=900)
     if rn.violated is None:
         raise ToolError("model self-test: Mono without the `queued` test did not violate Once")
+    # ---- polymorphic recursion: Mono.tla's Diverged / Refuse bound to the code -- an infinite instance closure is refused in
+    # bounded time (never a hang, a crash or an acceptance), a finite one is accepted
+    pr = fam_c07.polyrec_programs()
+    pd = workdir("c07-polyrec")
+    pres = gv_robust("compile", [{"id": n, "text": t, "dir": pd, "limit_s": 60} for n, t, inf in pr], extra=["--limit-ms", "60000"])
+    for (n, t, inf), a in zip(pr, pres):
+        v = a.get("verdict")
+        if v in ("panic", "timeout", "abort"):
+            rep.violation(f"polymorphic-recursion:{v}:{n}", {"source": t, "at": a.get("at"), "msg": a.get("msg")}, replay={"text": t})
+        elif inf and v == "ok":
+            rep.violation(f"polymorphic-recursion:accepted-infinite-closure:{n}", {"source": t}, replay={"text": t})
+        elif not inf and v != "ok":
+            rep.violation(f"polymorphic-recursion:rejected-finite-closure:{n}", {"source": t, "diags": [d["msg"] for d in a.get("diags", [])][:3]}, replay={"text": t})
+    rep.coverage["polymorphic_recursion_programs"] = len(pr)
     progs = fam_c07.programs(tier)
     cases, counts = famcheck.run_families("C07", rep, progs, "c07", goinvalid_is_violation=True, crash_is_violation=True)
     rep.coverage["states"] += states
